@@ -19,6 +19,12 @@ META = {
             "(negatedOps, betweenOps, inOps of Gen/Precedence.lean; gen_not_forms_levels pins them and the levels the model decides with), the printers of Between, In, Like, RowValue, ValueList, Function, CursorStatus, CursorAttrebute "
             "are pinned part by part against the regenerated String() sequences (gen_expression_printers_match_model); op_print_parse / op_parse_wellformed / op_parse_print_parse / op_print_idempotent / args_print_parse cover all of them, "
             "between_low_and_needs_parentheses shows the hypothesis is needed; stream op c18.opx now generates every one of these forms (nested, undamaged and damaged) and compares tree shape, printed tokens and accept/reject with the real parser. "
+            "THE QUERY LEVEL above the SELECT skeleton is in the model since wave 18 (Model/Query.lean; mutual SetTree / Query / Withs, fuelled parsers): set operators UNION / EXCEPT / INTERSECT [ALL] parsed by precedence climbing with the levels REGENERATED from the %left lines of parser.y "
+            "(gen_set_operator_levels: UNION = EXCEPT = 2 < INTERSECT = 3, all left), parenthesised queries as their operands (Subquery nodes: the printer adds no parentheses, written ones stay in the tree), ORDER BY / LIMIT / OFFSET of the whole query "
+            "(kept in the right-most SELECT when there is one, behind a parenthesised right-most operand otherwise; no other operand may carry them), FOR UPDATE, WITH [RECURSIVE] name [(columns)] AS (query), ... nested to any depth: "
+            "query_print_parse / query_print_parse_whole / query_print_idempotent / set_tree_print_parse (Props/C18Query.lean) for EVERY table, every level assignment and every well-formed query; the printers of SelectSet, Subquery, SelectQuery, WithClause, InlineTable "
+            "are pinned part by part against the regenerated String() sequences (gen_query_printers_match_model); stream op c18.qry compares the real parser's TREE SHAPE (the tokens alone do not show the precedence) and SelectQuery.String() with the model on generated queries "
+            "(1-5 operands, nested parentheses, WITH lists, tails, FOR UPDATE; a fifth damaged) and 34 witnesses. "
             "Still by correspondence only: CASE, sub-queries in expressions (scalar, IN, EXISTS, ANY / ALL), row values, aggregate / analytic / list functions, SUBSTRING ... FROM ... FOR. "
             "the CLAUSE SKELETON OF SELECT is in the model too (Model/Clause.lean): DISTINCT, items (expr [AS alias] | * | t.*), FROM with aliases and join chains (INNER / LEFT / RIGHT / FULL [OUTER] / CROSS / NATURAL, ON | USING), "
             "WHERE, GROUP BY, HAVING, ORDER BY items with direction and NULLS position, LIMIT (unit, ONLY | WITH TIES), OFFSET: parseSelect(printSelect s ++ rest) = (s, rest) is proved for every well-formed query "
@@ -42,7 +48,7 @@ META = {
             "the least solution 'types of a symbol' is a certificate Lean re-checks (closed under every source of every action; every assertion satisfied by every type of its operand's symbol, nil only where the action excluded it: lalr_action_assertions_typed), "
             "and typed_stack_invariant proves for ALL token lists, all fuel and EVERY choice the actions make (an oracle) that each stack value has a type of the symbol its state was entered on - from table facts inside lalr_tables_wf: a reduction by p pops states entered on exactly the symbols of p "
             "(the right-hand sides are a certificate checked against yyChk for every state that can lie at that depth), the goto pushes a state entered on p's nonterminal; hence lalr_actions_never_panic and parse_never_panics (driver + actions: accept or a syntax error inside the input, nothing else); the index / slice expressions of the actions are each under a length test of the same action (extractor's guard analysis) except Literal[0] of a PLACEHOLDER token, in range by scan_placeholder_literal_nonempty (scanner model, all rune strings); pinned: gen_action_index_sites_reviewed / _callees_ / _helpers_. "
-            "PARTIAL: the rest of the grammar layer (other statements, set operators, sub-selects, INTO / WITH / FOR UPDATE / FETCH / LATERAL, CASE, sub-queries inside expressions (scalar / IN / EXISTS / ANY / ALL), row values, aggregate / analytic / list functions and SUBSTRING FROM FOR; the BODIES of the semantic actions, that the goyacc tables implement the grammar of parser.y, the other String() methods) is not modelled - "
+            "PARTIAL: the rest of the grammar layer (other statements, sub-selects in FROM, INTO / FETCH / LATERAL, CASE, sub-queries inside expressions (scalar / IN / EXISTS / ANY / ALL), row values, aggregate / analytic / list functions and SUBSTRING FROM FOR; the BODIES of the semantic actions, that the goyacc tables implement the grammar of parser.y, the other String() methods) is not modelled - "
             "parser.Parse totality, error positions, print/parse fixpoint and evaluation agreement are validated by correspondence only "
             "(corpus + grammar-aware mutation + generated queries, all four prepared x ansi-quotes modes)",
     "design_ref": "DESIGN.md section 5, C18",
@@ -75,7 +81,7 @@ def run(run):
     run.regen("lalr-tables", ["go", "run", "-C", "extract/lalr", ".", "tables"], "Csvq/Gen/LalrTables.lean")
     run.regen("lalr-driver", ["go", "run", "-C", "extract/lalr", ".", "driver"], "Csvq/Gen/LalrDriver.lean")
     run.regen("lalr-actions", ["go", "run", "-C", "extract/lalr", ".", "actions"], "Csvq/Gen/LalrActions.lean")
-    run.obligations_for(["Csvq.Props.C18", "Csvq.Props.C18Lalr", "Csvq.Props.C18LalrActions", "Csvq.Props.C18LalrSites"])
+    run.obligations_for(["Csvq.Props.C18", "Csvq.Props.C18Query", "Csvq.Props.C18Lalr", "Csvq.Props.C18LalrActions", "Csvq.Props.C18LalrSites"])
     run.stream("c18", 30000 if q else 400000)
     if not q:
         for k in range(1, 5):
@@ -91,6 +97,7 @@ def run(run):
              "a clause matrix covering every combination of the optional parts of each production (order item direction x NULLS position, LIMIT/FETCH x unit x restriction x OFFSET, DISTINCT, IGNORE NULLS, WITHIN GROUP, frames, join kind x NATURAL/USING/ON x LATERAL, set operators x ALL, WITH, FOR UPDATE, INTO; measured per parsed tree in stats clause:*), "
              "evaluation agreement on two tables with NULLs and duplicates; String() -> Parse -> String() fixpoint for every text that parses to one query expression, evaluation agreement for generated constant queries; "
              "goyacc driver (op c18.lalr): every text of (b) in its mode, plus token-level damage with the whole vocabulary of the grammar (every keyword, literal class and punctuation: delete / repeat / swap / replace / insert / shuffle a window / cut short, and pure token soup) - the real scanner's token codes go to the model, the real parser's verdict, offending token and reduction trace are compared; stats lalr:accept / lalr:syntax-error, lalr.productions_reduced of lalr.productions_total; "
+             "query level (op c18.qry): generated queries of 1-5 SELECT operands (each inside the modelled skeleton, mostly without ORDER BY / LIMIT) joined by UNION / EXCEPT / INTERSECT [ALL], operands parenthesised with probability 1/4 (depth <= 2), optional ORDER BY / LIMIT / OFFSET, FOR UPDATE, WITH lists of 1-2 inline tables (RECURSIVE, column lists), a fifth damaged at word level (delete / duplicate / swap / insert); answer = tree shape | printed tokens, or ERR; "
              "operator expressions: random trees of the fragment (binary / prefix / IS / NOT LIKE / [NOT] BETWEEN / [NOT] IN lists of 1-3 values / calls with 0-3 arguments / CURSOR status and COUNT) written down without added parentheses (depth <= 5) plus damaged token lists (delete / duplicate / swap / insert, also NOT BETWEEN IN LIKE , CURSOR OPEN RANGE) and ~100 witnesses of the precedence interplay, real parser + String() against the model's parse / print; non-trivial = distinct (mode, token-kind sequence, outcome / statement types) or (rune classes, length band) or unary tree shape",
         trusted_base=BASE_TRUST + [
             "unicode.IsLetter/IsDigit tables (parameters of the theorems; driver instance = the toolchain's own tables, regenerated on every C06 run and compared rune by rune with package unicode by stream c06.uclass)",
@@ -100,5 +107,5 @@ def run(run):
             "extract/lalr actions: go/types over lib/parser (static type of an assigned expression = dynamic type of the value; implements-relation), the length-guard analysis of index sites, the pinned lists of Ref/LalrActions.lean",
             "the values (not the types) the semantic actions build, goyacc's table construction (tables = grammar), String() methods other than the unary operators (validated by correspondence only)",
         ],
-        checker_cmd="cd /verif/lean && lake build Csvq.Props.C18 Csvq.Props.C18Lalr Csvq.Props.C18LalrActions Csvq.Props.C18LalrSites && lake env lean <#print axioms for every theorem>",
+        checker_cmd="cd /verif/lean && lake build Csvq.Props.C18 Csvq.Props.C18Query Csvq.Props.C18Lalr Csvq.Props.C18LalrActions Csvq.Props.C18LalrSites && lake env lean <#print axioms for every theorem>",
     )
